@@ -154,6 +154,8 @@ pub fn value_cfg(report: &Report, conformance: bool, tier: Tier) -> ValueCfg {
     if report.known.any_open("open-type-over-16k") {
         cfg.cap_open_types = true;
     }
+    // (C02 and C16b need values inside their types: the reference encoder certifies that)
+    cfg.foreign_chars = !conformance;
     cfg
 }
 
